@@ -137,7 +137,25 @@ class Check:
         for i in self.instances:
             if i["site"] or i["detail"]:
                 distinct.add((i["rule"], i["instance"], i["function"], i["site"]))
-        samples = [i for i in self.instances][:40]
+        # one sample per distinct (rule, instance) first, then fill up in evaluation order
+        samples, seen_kinds = [], set()
+        for i in self.instances:
+            k = (i["rule"], i["instance"])
+            if k not in seen_kinds:
+                seen_kinds.add(k)
+                samples.append(i)
+        for i in self.instances:
+            if len(samples) >= 60:
+                break
+            if i not in samples:
+                samples.append(i)
+        samples = samples[:max(60, len(seen_kinds))]
+        kinds = {}
+        for i in self.instances:
+            e = kinds.setdefault(f'{i["rule"]}: {i["instance"]}', dict(evaluated=0, functions=[]))
+            e["evaluated"] += 1
+            if i["function"] and i["function"] not in e["functions"] and len(e["functions"]) < 6:
+                e["functions"].append(i["function"])
         cov = dict(
             explanation=self.explanation,
             evaluations=len(self.instances),
@@ -148,6 +166,7 @@ class Check:
             samples=samples,
             floors=self.floors,
             instances_by_rule=self._by_rule(),
+            rule_instances=kinds,
             configurations=self.configs,
             positive_controls=self.controls,
             known_findings_printed=known_printed,
